@@ -1,15 +1,16 @@
 META = {
     "level": "model_checking",
     "technique": "TLA+ state machine of the authenticate() loop (AuthStrategy.tla: NextSource/Attempt/Record/Finish) model-checked by TLC over every source list up to a bound; each TLC-emitted program replayed on the real AuthStrategy.authenticate with recording stub sources; recorded call/result traces of random longer programs validated by TLC against the same clause operators (AuthStrategy_Trace.tla)",
-    "text": "TLC enumerates every list of source outcomes (success or one of several exception kinds) up to the bound, checks on the model that calls happen in production order, stop at the first success, that the result lists exactly the attempted sources with their outcomes and that AuthFailure is raised iff none succeeded, and emits each program with the expected calls/result; every program is run on the real class (generator, list and iterator get_sources) and the observed call order, outcome and AuthResult entries (object identity of sources, return values and exception instances) are judged by TLC; seeded random programs of length 0..8 over 17 exception kinds are judged the same way",
-    "note": "trusted: TLC, the stub sources and the identity look-ups that turn AuthResult entries into (source index, kind, origin) records; exceptions are subclasses of Exception (BaseException such as KeyboardInterrupt is outside the statement); a success is a source whose authenticate() returns",
+    "text": "TLC enumerates every list of source outcomes (a returned value - empty list, non-empty list, None - or an exception kind) up to the bound, checks on the model that calls happen in production order, stop at the first success, that the result lists exactly the attempted sources with their outcomes and that AuthFailure is raised iff none succeeded, and emits each program with the expected calls/result; every program is run on the real class (generator, list and iterator get_sources) and the observed call order, outcome and AuthResult entries (object identity of sources, return values and exception instances) are judged by TLC; seeded random programs of length 0..8 over 11 kinds of returned value ([], non-empty list, None, strings, object, 0, False, True, (), dict) and 17 exception kinds are judged the same way",
+    "note": "trusted: TLC, the stub sources and the identity look-ups that turn AuthResult entries into (source index, kind, origin) records; exceptions are subclasses of Exception (BaseException such as KeyboardInterrupt is outside the statement); a success is a source whose authenticate() returns, whatever the value; the AuthResult must hold that very object unchanged",
 }
 import random
 from harness.core import cfg_text, Machinery
 from harness.drivers import codec
 
-MODEL_OUTCOMES = ["ok", "AuthenticationException", "SSHException", "OSError", "ValueError"]
-MUTATIONS = {"no_break": "CallsLegal", "drop_failures": "ResultTracksCalls", "never_raises": "FinalOK",
+MODEL_OUTCOMES = ["ok", "ok_list", "ok_none", "AuthenticationException", "OSError"]
+MODEL_RETURNS = {"ok", "ok_list", "ok_none"}
+MUTATIONS = {"nonempty_list_not_success": "FinalOK", "no_break": "CallsLegal", "drop_failures": "ResultTracksCalls", "never_raises": "FinalOK",
              "reversed": "CallsLegal"}
 
 
@@ -24,7 +25,8 @@ def replay(c, rp):
     rec = codec.run_auth_program(rp["prog"], rp.get("style", "generator"))
     c.case(key=(rec["style"],) + tuple(rec["prog"]), sample=rec)
     res, _ = c.trace("AuthStrategy_Trace", [{k: rec[k] for k in ("prog", "events", "final")}],
-                     cfg_text(spec="TSpec", constants={"Outcomes": set(codec.exception_factories()) | {"ok"}, "MaxLen": 8, "Mutation": "none"},
+                     cfg_text(spec="TSpec", constants={"Outcomes": set(codec.exception_factories()) | set(codec.RETURN_FACTORIES),
+                                                 "Returns": set(codec.RETURN_FACTORIES), "MaxLen": 8, "Mutation": "none"},
                               invariants=["Report"]))
     if len(res["DONE"]) != 1:
         raise Machinery("trace validation did not consume the replayed trace")
@@ -38,7 +40,7 @@ def run(c):
         import json
         return replay(c, json.load(open(c.replay_file))["replay"])
     maxlen = 4 if c.quick else 6
-    consts = {"Outcomes": set(MODEL_OUTCOMES), "MaxLen": maxlen, "Mutation": "none"}
+    consts = {"Outcomes": set(MODEL_OUTCOMES), "Returns": MODEL_RETURNS, "MaxLen": maxlen, "Mutation": "none"}
     invs = ["TypeOK", "ResultTracksCalls", "FinalOK", "LoopAgrees"]
     # ---- M: the loop satisfies the statement for every program up to the bound; emits the programs
     r = c.mc_holds("AuthStrategy", cfg_text(constants=consts, invariants=invs + ["Emit"], properties=["CallsLegal"]),
@@ -65,15 +67,15 @@ def run(c):
     n_rp = len(batch)
     # ---- TV input: seeded random programs, longer, more exception kinds
     rnd = random.Random(c.seed)
-    kinds = sorted(codec.exception_factories())
+    kinds, rets = sorted(codec.exception_factories()), sorted(codec.RETURN_FACTORIES)
     for _ in range(600 if c.quick else 20000):
         n = rnd.randint(0, 8)
         p_ok = rnd.choice([0.0, 0.1, 0.3, 0.6])
-        prog = ["ok" if rnd.random() < p_ok else rnd.choice(kinds) for _ in range(n)]
+        prog = [rnd.choice(rets) if rnd.random() < p_ok else rnd.choice(kinds) for _ in range(n)]
         rec = codec.run_auth_program(prog, rnd.choice(codec.AUTH_STYLES))
         batch.append(rec)
         c.case(key=(rec["style"],) + tuple(prog))
-    tv_consts = dict(consts, Outcomes=set(kinds) | {"ok"}, MaxLen=8)
+    tv_consts = dict(consts, Outcomes=set(kinds) | set(rets), Returns=set(rets), MaxLen=8)
     res, _ = c.trace("AuthStrategy_Trace", [{k: rec[k] for k in ("prog", "events", "final")} for rec in batch],
                      cfg_text(spec="TSpec", constants=tv_consts, invariants=["Report"]))
     if len(res["DONE"]) != len(batch):
@@ -100,8 +102,8 @@ def run(c):
         if rec["style"] == "generator" and rec["produced"] > len(rec["events"]):
             c.conformance("sources_produced_ahead", "the generator was advanced past the last attempted source: " + describe(rec))
     c.rule = ("every list of outcomes over %s up to length %d (TLC-enumerated; generator/list/iterator get_sources) + seeded "
-              "random lists of length 0..8 over 'ok' and %d exception kinds; distinct = distinct (style, outcome list)"
-              % (MODEL_OUTCOMES, maxlen, len(kinds)))
+              "random lists of length 0..8 over %d kinds of returned value and %d exception kinds; distinct = distinct (style, outcome list)"
+              % (MODEL_OUTCOMES, maxlen, len(rets), len(kinds)))
     c.extra["exhaustive"] = True
     c.assumptions = ["sources raise subclasses of Exception; a source succeeds when its authenticate() returns",
                      "AuthResult entries are identified by object identity with the stub sources, their return values and raised instances"]
